@@ -121,3 +121,9 @@ if os.path.lexists(file_name + '.old'):
         expect=[('C18.R', 'main::resuming-only-reads-the-checkpoint-files')], mode='text',
         more=[dict(scope='', old="import sys\n", new="import sys\nimport os\n", mode='text')]),
 ]
+CORPUS += [
+    Mut('c18-hmc-checkpoints-through-a-dumper', 'torchtree/inference/hmc/hmc.py', 'HMC.run', 'save_parameters(self.checkpoint, self.parameters)',
+        'Dumper(self.parameters, file_name=self.checkpoint, indent=2).run()', expect=[('C18.W', 'checkpoint-path-goes-to-the-atomic-writer-only::Dumper')]),
+    Mut('c18-writer-started-on-a-thread', OPT, 'Optimizer.save_full_state', 'save_parameters(checkpoint, full_state, safely, overwrite)',
+        'import threading\nthreading.Thread(target=save_parameters, args=(checkpoint, full_state, safely, overwrite)).start()', expect=[('C18.W', 'save_parameters-is-called-not-handed-over')]),
+]
